@@ -277,7 +277,8 @@ def tame(line):
     ASan WITHOUT any extra wrapper (known finding, reported under C02; every abort costs seconds):
     such cases keep their shape but the leaves ignore the stop notification instead."""
     p = line.split("|")
-    if "(src" in p[1] and "p:done" in p[2]:
+    # src = let_value_with_stop_source; rtk / lvt (added to the generator later) own an inplace_stop_source the same way
+    if any(k in p[1] for k in ("(src", "(rtk", "(lvt")) and "p:done" in p[2]:
         p[2] = p[2].replace("p:done", "p:ign")
         return "|".join(p)
     return line
